@@ -1,6 +1,7 @@
 package main
 
 import (
+	"syscall"
 	"strings"
 	"bytes"
 	"fmt"
@@ -686,8 +687,139 @@ func c14TagPipelined(msize uint32, depth int, dotu bool) Scenario {
 	}}
 }
 
+// c14AfterWstat: reads and writes through an open fid after a Twstat on that fid that
+// renames the file, alone or together with other changes, some of which the host
+// refuses after the rename has been carried out. Whatever the Twstat's answer, the fid
+// goes on reading and writing the file it has open (found on the host by its inode),
+// also when the host has meanwhile created another file under the old name.
+func c14AfterWstat(dotu bool) Scenario {
+	name := fmt.Sprintf("reads and writes through a fid after a Twstat on it dotu=%v", dotu)
+	return Scenario{Name: name, Run: func(rc *RunCtx) *Result {
+		res := &Result{Exhaustive: true}
+		type wcase struct {
+			name   string
+			nm     string
+			length uint64
+			mtime  uint32
+		}
+		none64, none32 := ^uint64(0), ^uint32(0)
+		cases := []wcase{
+			{"rename", "new", none64, none32},
+			{"rename and truncate", "new", 5, none32},
+			{"rename and a length the host refuses", "new", 1 << 63, none32},
+			{"a length the host refuses", "", 1 << 63, none32},
+			{"rename and mtime", "new", none64, 1000000},
+			{"rename, a length the host refuses and mtime", "new", 1 << 63, 1000000},
+			{"rename onto an existing file", "other", none64, none32},
+			{"rename onto an existing file and a length the host refuses", "other", 1 << 63, none32},
+		}
+		seen := map[string]bool{}
+		for _, wc := range cases {
+			for _, recreate := range []bool{false, true} {
+				base, root := scratchDir("c14w")
+				content := pattern(40, 3)
+				os.WriteFile(filepath.Join(root, "old"), content, 0o644)
+				os.WriteFile(filepath.Join(root, "other"), []byte("another file"), 0o644)
+				fi0, _ := os.Stat(filepath.Join(root, "old"))
+				ino := fi0.Sys().(*syscall.Stat_t).Ino
+				find := func() string {
+					ents, _ := os.ReadDir(root)
+					for _, e := range ents {
+						if fi, err := os.Lstat(filepath.Join(root, e.Name())); err == nil && fi.Sys().(*syscall.Stat_t).Ino == ino {
+							return filepath.Join(root, e.Name())
+						}
+					}
+					return ""
+				}
+				bad := withUfsClient(root, 8216, dotu, func(c *go9p.Clnt, h *SrvH) string {
+					f, err := c.FOpen("old", go9p.ORDWR)
+					if err != nil {
+						return "FOpen: " + err.Error()
+					}
+					d := c14NoChange()
+					d.Name, d.Length, d.Mtime = wc.nm, wc.length, wc.mtime
+					werr := c.Wstat(f.Fid, d)
+					if recreate {
+						if _, err := os.Lstat(filepath.Join(root, "old")); err != nil {
+							os.WriteFile(filepath.Join(root, "old"), []byte("a new file under the old name, 40 bytes.."), 0o644)
+						}
+					}
+					where := find()
+					if where == "" {
+						return "the file is gone from the host"
+					}
+					want, _ := os.ReadFile(where)
+					res.Evals++
+					buf := make([]byte, 64)
+					n, err := f.ReadAt(buf, 0)
+					if err != nil && n == 0 && len(want) > 0 {
+						return fmt.Sprintf("after Twstat (%s, answered %v) ReadAt through the open fid fails: %v; the file is now %s and holds %d bytes", wc.name, werr, err, filepath.Base(where), len(want))
+					}
+					if !bytes.Equal(buf[:n], want) {
+						return fmt.Sprintf("after Twstat (%s, answered %v) ReadAt through the open fid returns %d bytes %x, the file (now %s) holds %x", wc.name, werr, n, buf[:n], filepath.Base(where), want)
+					}
+					res.Evals++
+					if _, err := f.WriteAt([]byte("XYZ"), 2); err != nil {
+						return fmt.Sprintf("after Twstat (%s, answered %v) WriteAt through the open fid fails: %v", wc.name, werr, err)
+					}
+					want2 := append([]byte{}, want...)
+					for len(want2) < 5 {
+						want2 = append(want2, 0)
+					}
+					copy(want2[2:], "XYZ")
+					if got, _ := os.ReadFile(where); !bytes.Equal(got, want2) {
+						return fmt.Sprintf("after Twstat (%s, answered %v) a WriteAt of 3 bytes at offset 2 through the open fid left %x in the file (now %s), want %x", wc.name, werr, got, filepath.Base(where), want2)
+					}
+					// a Twstat{length} through the fid changes the length of that file and of no other
+					res.Evals++
+					d2 := c14NoChange()
+					d2.Length = 4
+					others := map[string]int64{}
+					ents, _ := os.ReadDir(root)
+					for _, e := range ents {
+						if p := filepath.Join(root, e.Name()); p != where {
+							if fi, err := os.Stat(p); err == nil {
+								others[p] = fi.Size()
+							}
+						}
+					}
+					if err := c.Wstat(f.Fid, d2); err != nil {
+						return fmt.Sprintf("after Twstat (%s, answered %v) a Twstat{length 4} through the fid fails: %v", wc.name, werr, err)
+					}
+					if fi, err := os.Stat(where); err != nil || fi.Size() != 4 {
+						return fmt.Sprintf("after Twstat (%s, answered %v) a Twstat{length 4} through the fid left the file (now %s) at %v bytes", wc.name, werr, filepath.Base(where), fi)
+					}
+					for p, sz := range others {
+						if fi, err := os.Stat(p); err != nil || fi.Size() != sz {
+							return fmt.Sprintf("after Twstat (%s, answered %v) a Twstat{length 4} through the fid changed the length of %s, another file", wc.name, werr, filepath.Base(p))
+						}
+					}
+					return ""
+				})
+				os.RemoveAll(base)
+				if bad != "" {
+					sig := "C14/after-wstat/" + sigWords(bad)
+					if !seen[sig] {
+						seen[sig] = true
+						res.Findings = append(res.Findings, Finding{Sig: sig, Msg: bad + fmt.Sprintf(" (another file created under the old name: %v, dotu %v)", recreate, dotu)})
+					}
+				}
+			}
+		}
+		res.Nontrivial = res.Evals
+		res.Samples = append(res.Samples, fmt.Sprintf("%d kinds of Twstat through an open fid x {old name left free, taken by a new file}: ReadAt, WriteAt, Twstat{length} afterwards", len(cases)))
+		return res
+	}}
+}
+
+// c14NoChange is a Dir whose every field says "leave it as it is".
+func c14NoChange() *go9p.Dir {
+	return &go9p.Dir{Type: ^uint16(0), Dev: ^uint32(0), Qid: go9p.Qid{Type: 0xFF, Version: ^uint32(0), Path: ^uint64(0)}, Mode: ^uint32(0), Atime: ^uint32(0), Mtime: ^uint32(0), Length: ^uint64(0), Uidnum: go9p.NOUID, Gidnum: go9p.NOUID, Muidnum: go9p.NOUID}
+}
+
 func c14Scenarios(tier string) []Scenario {
 	var out []Scenario
+	out = append(out, c14AfterWstat(false), c14AfterWstat(true))
 	msizes := []uint32{32, 40, 152}
 	if tier == "thorough" {
 		msizes = []uint32{32, 33, 40, 152, 4120, 65560}
